@@ -591,6 +591,13 @@ func (h *handler1) handleConnect(ctx context.Context, snConnect *snPkts1.Connect
 }
 
 func (h *handler1) handleSubscribe(ctx context.Context, snSubscribe *snPkts1.Subscribe) error {
+	// QoS 0b11 is reserved in SUBSCRIBE and is not a valid MQTT QoS.
+	if snSubscribe.QOS > 2 {
+		snSuback := snPkts1.NewSuback(0, snPkts1.RC_NOT_SUPPORTED, 0)
+		snSuback.CopyMessageID(snSubscribe)
+		return h.snSend(snSuback)
+	}
+
 	var topic string
 	// From MQTT-SN specification v. 1.2, chapter 5.4.16 SUBACK:
 	// 	TopicID [...] [is] not relevant in case of subscriptions to a short topic name or to a topic name which
